@@ -3,8 +3,8 @@
    Print Assumptions follows every theorem.   *)
 
 From Coq Require Import List NArith Bool Sorting Permutation.
-From Ice Require Import Base Spec.
-From IceProofs Require DocsMatching_Proofs Sort_Proofs.
+From Ice Require Import Base Spec Dict SegmentOps.
+From IceProofs Require DocsMatching_Proofs Sort_Proofs SegmentOps_Proofs.
 Import ListNotations.
 Open Scope N_scope.
 
@@ -12,7 +12,7 @@ Open Scope N_scope.
 Theorem postings_docs_iff :
     forall (A : ASeg) (f t : bytes) (d : N),
     In d (map fst (o_postings A f t)) <-> DocsMatching_Proofs.doc_has_term A f t d.
-Proof. exact DocsMatching_Proofs.postings_docs_iff. Qed.
+Proof. exact @DocsMatching_Proofs.postings_docs_iff. Qed.
 Print Assumptions postings_docs_iff.
 
 (* exactly the documents containing at least one listed (field, term) pair *)
@@ -20,47 +20,81 @@ Theorem docsmatching_In :
     forall (A : ASeg) (terms : list (bytes * bytes)) (d : N),
     In d (o_docsmatching A terms) <->
     (exists f t : bytes, In (f, t) terms /\ DocsMatching_Proofs.doc_has_term A f t d).
-Proof. exact DocsMatching_Proofs.docsmatching_In. Qed.
+Proof. exact @DocsMatching_Proofs.docsmatching_In. Qed.
 Print Assumptions docsmatching_In.
 
 (* as a set: ascending, no duplicates *)
 Theorem docsmatching_sorted :
     forall (A : ASeg) (terms : list (bytes * bytes)), Sort_Proofs.strict_sorted_N (o_docsmatching A terms).
-Proof. exact DocsMatching_Proofs.docsmatching_sorted. Qed.
+Proof. exact @DocsMatching_Proofs.docsmatching_sorted. Qed.
 Print Assumptions docsmatching_sorted.
 
 (* list order and repeats do not matter *)
 Theorem docsmatching_order_irrelevant :
     forall (A : ASeg) (ts1 ts2 : list (bytes * bytes)),
     (forall x : bytes * bytes, In x ts1 <-> In x ts2) -> o_docsmatching A ts1 = o_docsmatching A ts2.
-Proof. exact DocsMatching_Proofs.docsmatching_order_irrelevant. Qed.
+Proof. exact @DocsMatching_Proofs.docsmatching_order_irrelevant. Qed.
 Print Assumptions docsmatching_order_irrelevant.
 
 (* unknown fields contribute nothing *)
 Theorem docsmatching_unknown_field :
     forall (A : ASeg) (f t : bytes) (terms : list (bytes * bytes)),
     known_field A f = false -> o_docsmatching A ((f, t) :: terms) = o_docsmatching A terms.
-Proof. exact DocsMatching_Proofs.docsmatching_unknown_field. Qed.
+Proof. exact @DocsMatching_Proofs.docsmatching_unknown_field. Qed.
 Print Assumptions docsmatching_unknown_field.
 
 (* unknown terms contribute nothing *)
 Theorem docsmatching_unknown_term :
     forall (A : ASeg) (f t : bytes) (terms : list (bytes * bytes)),
     o_postings A f t = [] -> o_docsmatching A ((f, t) :: terms) = o_docsmatching A terms.
-Proof. exact DocsMatching_Proofs.docsmatching_unknown_term. Qed.
+Proof. exact @DocsMatching_Proofs.docsmatching_unknown_term. Qed.
 Print Assumptions docsmatching_unknown_term.
 
 Theorem docsmatching_app :
     forall (A : ASeg) (ts1 ts2 : list (bytes * bytes)),
     o_docsmatching A (ts1 ++ ts2) = sort_dedup_N (o_docsmatching A ts1 ++ o_docsmatching A ts2).
-Proof. exact DocsMatching_Proofs.docsmatching_app. Qed.
+Proof. exact @DocsMatching_Proofs.docsmatching_app. Qed.
 Print Assumptions docsmatching_app.
 
 Theorem docsmatching_below_count :
     forall (A : ASeg) (terms : list (bytes * bytes)) (d : N),
     In d (o_docsmatching A terms) -> d < o_count A.
-Proof. exact DocsMatching_Proofs.docsmatching_below_count. Qed.
+Proof. exact @DocsMatching_Proofs.docsmatching_below_count. Qed.
 Print Assumptions docsmatching_below_count.
+
+(* the statement-by-statement model of Segment.DocsMatchingTerms (dictionary looked up on a field switch, nil dictionary skipped, postings list of the term, OrInto with both encodings) returns exactly o_docsmatching for every list *)
+Theorem docs_matching_spec :
+    forall (A : ASeg) (use1 : bytes -> bytes -> bool) (nofst fails : bytes -> bool)
+    (terms : list (bytes * bytes)),
+    (forall ft : bytes * bytes,
+    In ft terms -> dictionary_lookup (dicts_of_aseg A use1 nofst) fails (fst ft) <> Err) ->
+    docs_matching (dicts_of_aseg A use1 nofst) fails terms = Ok (o_docsmatching A terms).
+Proof. exact @SegmentOps_Proofs.docs_matching_spec. Qed.
+Print Assumptions docs_matching_spec.
+
+(* never a panic, whatever the list (unknown fields, the empty field name first, absent terms) *)
+Theorem docs_matching_never_panics :
+    forall (dicts : seg_dicts) (fails : bytes -> bool) (terms : list (bytes * bytes)),
+    docs_matching dicts fails terms <> Panic /\
+    docs_matching dicts fails terms <> Block /\ docs_matching dicts fails terms <> OutOfFuel.
+Proof. exact @SegmentOps_Proofs.docs_matching_never_panics. Qed.
+Print Assumptions docs_matching_never_panics.
+
+(* a failing dictionary read yields an error, never a partial set *)
+Theorem docs_matching_error :
+    forall (dicts : seg_dicts) (fails : bytes -> bool) (terms : list (bytes * bytes)) (f t : bytes),
+    In (f, t) terms -> dictionary_lookup dicts fails f = Err -> docs_matching dicts fails terms = Err.
+Proof. exact @SegmentOps_Proofs.docs_matching_error. Qed.
+Print Assumptions docs_matching_error.
+
+(* regression of the method: the pinned version (no nil-dictionary skip) panics on a witness list *)
+Theorem docs_matching_prefix_refuted :
+    exists (dicts : seg_dicts) (terms : list (bytes * bytes)),
+    dicts_wf dicts = true /\
+    docs_matching_prefix dicts (fun _ : bytes => false) terms = Panic /\
+    docs_matching dicts (fun _ : bytes => false) terms = Ok [7].
+Proof. exact @SegmentOps_Proofs.docs_matching_prefix_refuted. Qed.
+Print Assumptions docs_matching_prefix_refuted.
 
 Example docsmatching_example :
     o_docsmatching DocsMatching_Proofs.DocsMatchingExample.seg
@@ -70,5 +104,5 @@ Example docsmatching_example :
     (DocsMatching_Proofs.DocsMatchingExample.fa, DocsMatching_Proofs.DocsMatchingExample.tq);
     (DocsMatching_Proofs.DocsMatchingExample.fa, DocsMatching_Proofs.DocsMatchingExample.tx)] = [
     0; 2].
-Proof. exact DocsMatching_Proofs.DocsMatchingExample.docsmatching_example. Qed.
+Proof. exact @DocsMatching_Proofs.DocsMatchingExample.docsmatching_example. Qed.
 Print Assumptions docsmatching_example.
